@@ -16,6 +16,8 @@ func init() {
 }
 
 func runC10(r *engine.Run) {
+	r.Rule("PURE-export", "collecting a path export stores into no child slot or value link of an existing node of the trie: what is not sent is replaced by a hash reference in the export only (a subtree collapsed in place is gone while changes are uncommitted or there is no storage, and no block below it can be proven)")
+	r.Rule("LOCK-rootwrite", "see C09: a method of the weighted trie that rewrites the root under the trie's lock holds it in write mode (concurrent writers under a read lock lose weight updates: branch weights stop being the sums of their children and honest proofs do not verify to the root)")
 	r.Rule("DEP-weight", "see C09: in the branch arm of insert and delete the child's weight change is folded into the branch weight before every success return that follows the descent, and the returned change depends on it: the prover navigates by these weights and the verifier sums the children, so a stale branch weight makes honest proofs verify to another root")
 	r.Rule("DOM-dirty", "see C09: a store to a hashed field of a node (also a leaf's weight) marks the node dirty on every path: a leaf re-weighted with identical value bytes otherwise keeps its cached hash and honest proofs verify to a root other than Root()")
 	r.Rule("ORDER-recompute", "in every success arm of verifyProof the verified child (result of the recursive verification) is stored into the node, dirty=true is stored and CalcHash() is called on that node, all before the node is returned; VerifyBlockProof returns Hash() of exactly that node: no wire-provided hash reaches the result without being recomputed")
@@ -58,6 +60,8 @@ func runC10(r *engine.Run) {
 	rejectKind(r, "DOM-reject")
 	depWeight(r)
 	domDirty(r)
+	pureExport(r, "PURE-export")
+	lockRootWrite(r, "LOCK-rootwrite")
 }
 
 func orderRecompute(r *engine.Run, f *ssa.Function) {
